@@ -282,7 +282,10 @@ PROPS["C10"] = dict(
          "boundary (call tick, return tick, result) from one logical clock and the successful operations must admit a linearisation "
          "(respecting real-time order) that alternates send,recv,.. (REQ) / recv,send,.. (REP) - exhaustive search, histories <= 24 ops. "
          "(gate) one task is held between the state check and the state update until a second has passed the check. (routing) a lock-step REP "
-         "with 3 clients (REQ and DEALER) echoes requests; each client must receive exactly the echoes of its own requests. "
+         "with 3 clients (REQ and DEALER) echoes requests; each client must receive exactly the echoes of its own requests. (parked reply) REP "
+         "with SNDHWM 1 and SNDTIMEO 300/800/1500 ms over tcp/ipc, peer A a DEALER that keeps requesting and never reads its 512 KiB replies "
+         "until a send() parks, peer B a REQ whose request another task receives while the send is parked; after the parked send has failed and "
+         "A reads again, the next reply must reach B and A must only ever see replies to its own requests. "
          "distinct = (configuration, result vector) with >= 2 successful operations.",
     assumptions=["a timed-out or failed call is treated as not having taken effect only if the linearisation of successful calls still exists without it"],
     shards=lambda tier, seed: sharded("c10", _n(tier, 8, 16), _n(tier, 240, 900))
